@@ -47,7 +47,7 @@ Lemma head_stops_sep rest : head_stops rest ->
   match rest with l :: p' => if bytes_eqb l s_sep then p' else rest | [] => rest end = rest.
 Proof. destruct rest; [auto|]. intros (_ & _ & H). rewrite H. reflexivity. Qed.
 
-Lemma index_cmd_found a c b : span_bytes a -> cmd_byte c -> index_cmd (a ++ c :: b) = Some (a, c).
+Lemma index_cmd_found a c b : span_bytes a -> cmd_byte c -> index_cmd (a ++ c :: b) = Some (a, c, b).
 Proof.
   intros Ha Hc. induction a as [|x a IH]; cbn [app index_cmd].
   - destruct Hc as [->|[->| ->]]; reflexivity.
@@ -81,20 +81,37 @@ Lemma produced_cons (e : edit line) es :
 Proof. reflexivity. Qed.
 
 (* ---- the edits of one chunk; [g] = unchanged lines the applier has not copied yet ---- *)
-Lemma apply_normal_edits es : forall g lpos rpos pos rest_p remL fuel K,
-  lpos - 1 = pos + llen g -> Forall normal_edit_ok es -> head_stops rest_p ->
+(* the strictness clause of the applier vanishes when its comparisons hold *)
+Ltac strict_ok :=
+  match goal with
+  | |- context [?s && ?b] =>
+    match b with
+    | context [negb] =>
+      replace (s && b) with false;
+      [| symmetry;
+         repeat match goal with
+                | |- context [?x =? ?y] =>
+                  replace (x =? y) with true by (symmetry; apply Z.eqb_eq; rewrite ?llen_nil; lia)
+                end;
+         cbn [is_nil negb orb]; apply andb_false_r ]
+    end
+  end.
+
+Lemma apply_normal_edits strict es : forall g lpos rpos pos opos rest_p remL fuel K,
+  lpos - 1 = pos + llen g -> rpos - 1 = opos + llen g -> Forall normal_edit_ok es -> head_stops rest_p ->
   (fuel > length (normal_edits es lpos rpos ++ rest_p))%nat ->
-  (forall g' pos' fuel', lpos + llen (consumed es) - 1 = pos' + llen g' ->
+  (forall g' pos' opos' fuel', lpos + llen (consumed es) - 1 = pos' + llen g' ->
+     rpos + llen (produced es) - 1 = opos' + llen g' ->
      (fuel' > length rest_p)%nat ->
-     apply_normal_loop fuel' rest_p pos' (g' ++ remL) = Some (g' ++ K)) ->
-  apply_normal_loop fuel (normal_edits es lpos rpos ++ rest_p) pos (g ++ consumed es ++ remL)
+     apply_normal_loop strict fuel' rest_p pos' opos' (g' ++ remL) = Some (g' ++ K)) ->
+  apply_normal_loop strict fuel (normal_edits es lpos rpos ++ rest_p) pos opos (g ++ consumed es ++ remL)
   = Some (g ++ produced es ++ K).
 Proof.
-  induction es as [|e es IH]; intros g lpos rpos pos rest_p remL fuel K Hpos Hok Hrest Hfuel HK.
+  induction es as [|e es IH]; intros g lpos rpos pos opos rest_p remL fuel K Hpos Hopos Hok Hrest Hfuel HK.
   - cbn [normal_edits app consumed produced flat_map] in *.
-    apply HK; [rewrite llen_nil; lia | exact Hfuel].
+    apply HK; [rewrite llen_nil; lia | rewrite llen_nil; lia | exact Hfuel].
   - inversion Hok as [|? ? He Hok']; subst.
-    rewrite consumed_cons, produced_cons. rewrite consumed_cons in HK.
+    rewrite consumed_cons, produced_cons. rewrite consumed_cons, produced_cons in HK.
     revert Hfuel. cbn [normal_edits]. unfold normal_edit_ok in He.
     pose proof (llen_nonneg g) as Hg.
     destruct (eop e) eqn:Eop; intros Hfuel.
@@ -107,11 +124,12 @@ Proof.
       rewrite <- app_comm_cons, <- app_assoc. fold tail.
       cbn [apply_normal_loop app].
       rewrite index_cmd_found by (first [apply dspan_span | right; right; reflexivity]).
-      rewrite parse_range_dspan.
+      rewrite parse_range_dspan, parse_range_itoa.
       rewrite take_prefixed_write by (apply head_stops_lt; exact Htail).
       rewrite head_stops_sep by exact Htail.
       rewrite take_prefixed_stop by (apply head_stops_gt; exact Htail).
-      change (N.eqb 100 97) with false. cbn iota.
+      change (N.eqb 100 97) with false. change (N.eqb 100 100) with true. cbn iota. cbn zeta.
+      strict_ok.
       assert (Hrem : g ++ (X e ++ consumed es) ++ remL = (g ++ X e) ++ consumed es ++ remL)
         by (rewrite <- !app_assoc; reflexivity).
       assert (Hlen : llen (g ++ (X e ++ consumed es) ++ remL) = llen g + n + llen (consumed es ++ remL))
@@ -130,11 +148,14 @@ Proof.
       assert (Hf : (f > length tail)%nat).
       { unfold tail. cbn [app length] in Hfuel. rewrite !app_length in Hfuel.
         rewrite app_length. lia. }
-      assert (E : apply_normal_loop f tail (lpos + n - 1) (consumed es ++ remL) = Some (produced es ++ K)).
-      { apply (IH [] (lpos + n) rpos (lpos + n - 1) rest_p remL f K); try assumption.
+      assert (E : apply_normal_loop strict f tail (lpos + n - 1) (opos + (lpos - 1 - pos) + llen (@nil line))
+                    (consumed es ++ remL) = Some (produced es ++ K)).
+      { apply (IH [] (lpos + n) rpos (lpos + n - 1) _ rest_p remL f K); try assumption.
         - rewrite llen_nil. lia.
-        - intros g' pos' fuel' H1 H2. apply HK; [|exact H2].
-          rewrite llen_app. fold n. lia. }
+        - rewrite !llen_nil. lia.
+        - intros g' pos' opos' fuel' H1 H2 H3. apply HK; [| |exact H3].
+          + rewrite llen_app. fold n. lia.
+          + rewrite llen_app, llen_nil. lia. }
       rewrite E. reflexivity.
     + (* Emit *)
       unfold normal_emit_lpos, normal_emit_rpos in *.
@@ -142,7 +163,8 @@ Proof.
       rewrite <- (app_assoc (X e) (produced es)). rewrite (app_assoc g (X e) (produced es ++ K)).
       apply IH; try assumption.
       * rewrite llen_app. lia.
-      * intros g' pos' fuel' H1 H2. apply HK; [|exact H2]. rewrite llen_app. lia.
+      * rewrite llen_app. lia.
+      * intros g' pos' opos' fuel' H1 H2 H3. apply HK; [| |exact H3]; rewrite llen_app; lia.
     + (* Copy *)
       unfold normal_copy_target, normal_copy_lo, normal_copy_hi, normal_copy_rpos in *.
       set (m := llen (Y e)) in *.
@@ -152,7 +174,7 @@ Proof.
       rewrite <- app_comm_cons, <- app_assoc. fold tail.
       cbn [apply_normal_loop app].
       rewrite index_cmd_found by (first [apply itoa_span | left; reflexivity]).
-      rewrite parse_range_itoa.
+      rewrite parse_range_itoa, parse_range_dspan.
       assert (Hgt : forall ys, take_prefixed s_lt (write_lines s_gt ys ++ tail) = ([], write_lines s_gt ys ++ tail)).
       { intros ys. apply take_prefixed_stop. destruct ys; [apply head_stops_lt; exact Htail | reflexivity]. }
       rewrite Hgt.
@@ -162,8 +184,9 @@ Proof.
       { intros ys. destruct ys; [apply head_stops_sep; exact Htail | reflexivity]. }
       rewrite Hsep.
       rewrite take_prefixed_write by (apply head_stops_gt; exact Htail).
-      change (N.eqb 97 97) with true. cbn iota.
-      cbn [app].
+      change (N.eqb 97 97) with true. cbn iota. cbn zeta.
+      cbn [app]. fold m.
+      strict_ok.
       pose proof (llen_nonneg (consumed es ++ remL)) as Hc.
       replace (lpos - 1 <? pos) with false by (symmetry; apply Z.ltb_ge; lia).
       replace (llen (g ++ consumed es ++ remL) <? lpos - 1 - pos) with false
@@ -173,9 +196,14 @@ Proof.
       assert (Hf : (f > length tail)%nat).
       { unfold tail. cbn [app length] in Hfuel. rewrite !app_length in Hfuel.
         rewrite app_length. lia. }
-      assert (E : apply_normal_loop f tail (lpos - 1) (consumed es ++ remL) = Some (produced es ++ K)).
-      { apply (IH [] lpos (rpos + m) (lpos - 1) rest_p remL f K); try assumption.
-        rewrite llen_nil. lia. }
+      assert (E : apply_normal_loop strict f tail (lpos - 1) (opos + (lpos - 1 - pos) + m) (consumed es ++ remL)
+                  = Some (produced es ++ K)).
+      { apply (IH [] lpos (rpos + m) (lpos - 1) _ rest_p remL f K); try assumption.
+        - rewrite llen_nil. lia.
+        - rewrite llen_nil. lia.
+        - intros g' pos' opos' fuel' H1 H2 H3. apply HK; [| |exact H3].
+          + cbn [app]. lia.
+          + rewrite llen_app. fold m. lia. }
       rewrite E. rewrite <- app_assoc. reflexivity.
     + (* Replace *)
       unfold normal_repl_llo, normal_repl_lhi, normal_repl_rlo, normal_repl_rhi,
@@ -189,11 +217,12 @@ Proof.
       rewrite <- app_comm_cons, <- !app_assoc. fold tail.
       cbn [apply_normal_loop app].
       rewrite index_cmd_found by (first [apply dspan_span | right; left; reflexivity]).
-      rewrite parse_range_dspan.
+      rewrite !parse_range_dspan.
       rewrite take_prefixed_write by reflexivity.
       change (bytes_eqb s_sep s_sep) with true. cbn iota.
       rewrite take_prefixed_write by (apply head_stops_gt; exact Htail).
-      change (N.eqb 99 97) with false. cbn iota.
+      change (N.eqb 99 97) with false. change (N.eqb 99 100) with false. cbn iota. cbn zeta. fold m.
+      strict_ok.
       assert (Hlen : llen (g ++ X e ++ consumed es ++ remL) = llen g + n + llen (consumed es ++ remL))
         by (rewrite !llen_app; fold n; lia).
       pose proof (llen_nonneg (consumed es ++ remL)) as Hc.
@@ -210,46 +239,56 @@ Proof.
       assert (Hf : (f > length tail)%nat).
       { unfold tail. cbn [app length] in Hfuel. rewrite !app_length in Hfuel. cbn [length] in Hfuel.
         rewrite !app_length in Hfuel. rewrite app_length. lia. }
-      assert (E : apply_normal_loop f tail (lpos + n - 1) (consumed es ++ remL) = Some (produced es ++ K)).
-      { apply (IH [] (lpos + n) (rpos + m) (lpos + n - 1) rest_p remL f K); try assumption.
+      assert (E : apply_normal_loop strict f tail (lpos + n - 1) (opos + (lpos - 1 - pos) + m) (consumed es ++ remL)
+                  = Some (produced es ++ K)).
+      { apply (IH [] (lpos + n) (rpos + m) (lpos + n - 1) _ rest_p remL f K); try assumption.
         - rewrite llen_nil. lia.
-        - intros g' pos' fuel' H1 H2. apply HK; [|exact H2].
-          rewrite llen_app. fold n. lia. }
+        - rewrite llen_nil. lia.
+        - intros g' pos' opos' fuel' H1 H2 H3. apply HK; [| |exact H3].
+          + rewrite llen_app. fold n. lia.
+          + rewrite llen_app. fold m. lia. }
       rewrite E. reflexivity.
 Qed.
 
 (* ---- all chunks ---- *)
-Lemma apply_normal_chunks cs : forall lpos rpos l r,
+Lemma apply_normal_chunks strict cs : forall lpos rpos l r,
   chunks_from lpos rpos l r cs -> normal_ok cs ->
-  forall g pos fuel, lpos - 1 = pos + llen g -> (fuel > length (normal_lines cs))%nat ->
-  apply_normal_loop fuel (normal_lines cs) pos (g ++ l) = Some (g ++ r).
+  forall g pos opos fuel, lpos - 1 = pos + llen g -> rpos - 1 = opos + llen g ->
+  (fuel > length (normal_lines cs))%nat ->
+  apply_normal_loop strict fuel (normal_lines cs) pos opos (g ++ l) = Some (g ++ r).
 Proof.
   intros lpos rpos l r H. induction H as [lpos rpos g0 | lpos rpos g0 c cs l r HL HR HLe HRe Hcf IH];
-    intros Hok g pos fuel Hpos Hfuel.
+    intros Hok g pos opos fuel Hpos Hopos Hfuel.
   - destruct fuel; [cbn in Hfuel; lia|]. reflexivity.
   - inversion Hok as [|? ? (Hl1 & Hr1 & He) Hok']; subst.
-    unfold normal_lines in *. cbn [flat_map] in *.
+    unfold normal_lines, normal_chunk_lines, normal_lpos_init, normal_rpos_init in *. cbn [flat_map] in *.
     rewrite (app_assoc g g0). rewrite (app_assoc g g0 (produced (edits c) ++ r)).
     assert (Hh : head_stops (flat_map (fun c => normal_edits (edits c) (LStart c) (RStart c)) cs)).
     { pose proof (normal_lines_head cs [] I) as H. rewrite app_nil_r in H. exact H. }
     apply apply_normal_edits; try assumption.
     + rewrite llen_app. lia.
-    + intros g' pos' fuel' H1 H2. apply IH; [exact Hok' | lia | exact H2].
+    + rewrite llen_app. lia.
+    + intros g' pos' opos' fuel' H1 H2 H3. apply IH; [exact Hok' | lia | lia | exact H3].
 Qed.
 
-Theorem apply_normal_lines L R cs :
-  patch_ok L R cs -> normal_ok cs -> apply_normal L (normal_lines cs) = Some R.
+Theorem apply_normal_lines strict L R cs :
+  patch_ok L R cs -> normal_ok cs -> apply_normal_gen strict L (normal_lines cs) = Some R.
 Proof.
-  intros H Hok. unfold apply_normal.
-  apply (apply_normal_chunks cs 1 1 L R H Hok [] 0); [reflexivity | lia].
+  intros H Hok. unfold apply_normal_gen.
+  apply (apply_normal_chunks strict cs 1 1 L R H Hok [] 0 0); [reflexivity | reflexivity | lia].
 Qed.
 
 (* byte level: the text Normal writes, split into lines the way a reader of the file would *)
-Theorem apply_normal_text L R cs :
+Theorem apply_normal_text_gen strict L R cs :
   patch_ok L R cs -> normal_ok cs -> lines_nf cs ->
-  apply_normal L (split_lines (normal cs)) = Some R.
+  apply_normal_gen strict L (split_lines (normal cs)) = Some R.
 Proof.
   intros H Hok Hnf. unfold normal.
   rewrite split_join_lines by (apply normal_lines_nf; exact Hnf).
   apply apply_normal_lines; assumption.
 Qed.
+
+Theorem apply_normal_text L R cs :
+  patch_ok L R cs -> normal_ok cs -> lines_nf cs ->
+  apply_normal L (split_lines (normal cs)) = Some R.
+Proof. apply apply_normal_text_gen. Qed.
